@@ -338,7 +338,7 @@ class Core:
         th = self.th
         fl = self.record_fields(cname)
         t = th.rec(cname, len(fl))(*argvals)
-        facts = [t != th.NoneV, th.isc(cname)(t) if cname in th.lat['sub'] else z3.BoolVal(True), th.truthy(t)]
+        facts = [t != th.NoneV, th.isc(cname)(t), th.truthy(t)]
         for (n, _m), a in zip(fl, argvals):
             facts.append(th.fld(n)(t) == a)
         st.add(*facts)
